@@ -143,9 +143,18 @@ def cmd_check(args):
         batches_info.append({"mode": mode, "requested": n, "completed": len(res), "capped": capped})
         all_results.extend(res)
 
+    run_errors = []
     for r in all_results:
         if r.get("status") == "harness_error":
-            harness_errors.append(f"run index={r.get('index')} seed={r.get('run_seed')}: {r.get('error')}")
+            run_errors.append(f"run index={r.get('index')} seed={r.get('run_seed')}: {r.get('error')}")
+    # an isolated run lost to the machine (timeout under load, killed child) is reported but does not make the batch a
+    # harness error; a systematic loss (> 1 % of the runs) does, because then too little was explored to say "held"
+    n_done = sum(1 for r in all_results if r.get("status") in ("ok", "violation"))
+    if len(run_errors) > max(2, 0.01 * max(1, n_done)):
+        harness_errors.extend(run_errors)
+    else:
+        for e in run_errors:
+            print(f"warning: run lost ({e[:200]})", file=sys.stderr)
 
     # 4. triage
     viol_lines, herr, triaged = runner.triage(system_name, all_results, {"tier": tier}, known, pid)
@@ -163,7 +172,7 @@ def cmd_check(args):
         harness_errors.append(f"only {len(core_built)} of {len(ok_runs)} runs could build their core template")
 
     wall = time.monotonic() - t0
-    ev = evidence.build(pid, system, tier, batch_seed, all_results, batches_info, triaged, known_seen, harness_errors, wall, workers, len(viol_lines))
+    ev = evidence.build(pid, system, tier, batch_seed, all_results, batches_info, triaged, known_seen, harness_errors + run_errors, wall, workers, len(viol_lines))
     evidence.write(pid, ev)
 
     for fid, v in sorted(known_seen.items(), key=lambda kv: str(kv[0])):
